@@ -226,6 +226,30 @@ def main():
         if v5:
             b += g.wire_field(g.T_DRAFT, g.DRAFT, True)
         add("N", b, [], "big")
+    # NTS authenticator fields of every small length (v5: also lengths that are not a multiple of 4) with
+    # lying nonce / ciphertext lengths, as the last field of the packet (then optionally a MAC), in the
+    # contexts N and C here and S below (regression seeded by the lead: unchecked range start in
+    # RawEncryptedField::from_message_bytes when the nonce ends in the last partial word)
+    auth_small = []
+    for v5 in (False, True):
+        for fl in range(4, 41):
+            L = max(fl - 8, 0)
+            lies = sorted({0, 1, 2, 3, max(L - 1, 0), L, L + 1, 0xFFFF})
+            combos = [(a, b) for a in lies for b in lies]
+            picked = [(L, rng.choice(lies)), (max(L - 1, 0), rng.choice(lies)), (min(L, 1), rng.choice(lies))]
+            for nl, cl in picked + rng.sample(combos, 1 if quick else 10):
+                body = (g.be(2, nl) + g.be(2, cl) + g.rbytes(rng, 40))[:fl - 4]
+                h = g.header5(rng) if v5 else g.header34(rng, 4)
+                pre = g.wire_field(g.T_DRAFT, g.DRAFT, True) if v5 else []
+                tail = [] if v5 or rng.random() < 0.5 else g.rbytes(rng, rng.choice([4, 20, 24]))
+                auth_small.append((v5, h, pre, g.wire_field(g.T_ENC, body, v5, length=fl), tail))
+    for v5, h, pre, f, tail in auth_small:
+        b = h + pre + f + tail
+        ctx = rng.choice(["N", "C"])
+        table = []
+        if ctx == "C" and rng.random() < 0.5:
+            table = [(g.rbytes(rng, 1), list(h + pre), g.rbytes(rng, 4), g.rbytes(rng, 8))]
+        add(ctx, b, table, "auth-small")
     # random bytes
     for _ in range(40 if quick else 500):
         n = rng.choice([0, 1, 47, 48, 49, 52, 64, 72, 76, 100, rng.randrange(0, 300)])
@@ -242,6 +266,15 @@ def main():
     mats = material(c, exe, rng, 6 if quick else 30)
     if mats:
         cases += nts_cases(rng, mats, 150 if quick else 1500, stats)
+        # the same small authenticator fields after a genuine cookie field, decoded with the server KeySet
+        for v5, h, pre, f, tail in auth_small[::2]:
+            ms = [m for m in mats if (m["ver"] == 5) == v5] or mats
+            m = rng.choice(ms)
+            cookie_field = g.wire_field(g.T_COOKIE, m["cookie"], v5)
+            b = h + pre + cookie_field + f + tail
+            cases.append({"ctx": "S", "data": b, "table": m["table"], "keys": m["keys"], "id_offset": m["id_offset"],
+                          "kind": "auth-small"})
+            stats["S:auth-small"] = stats.get("S:auth-small", 0) + 1
 
     outcome = {}
 
@@ -256,7 +289,7 @@ def main():
                      "MACs of all lengths, NTS authenticator fields with a driver-chosen decrypt table incl. malformed plaintexts), "
                      "their truncations / bit flips / length-field lies, every prefix length of a valid packet, random bytes, and "
                      "genuine NTS requests/responses produced by the implementation (real AES-SIV, cookies under a 1-3 key KeySet) "
-                     "with the same mutations, in the contexts N (NoCipher), C (table cipher), R (real client cipher), S (server KeySet); "
+                     "with the same mutations, NTS authenticator fields of every length 4..40 (v5 also non-multiples of 4) with lying nonce/ciphertext lengths as last field, in the contexts N (NoCipher), C (table cipher), R (real client cipher), S (server KeySet); "
                      "the model gets the genuine AEAD tuples as its oracle table. non-trivial = datagram has a full header of version 3/4/5")
     outs = vplib.correspondence(
         c, "ntp-proto", cases, line_of=line_of, coq_case_of=coq_case,
